@@ -375,6 +375,7 @@ func Try[C any](r *Recorder, c C, check func(C) error) string {
 			r.Class("env:process-time-zone-changed")
 		}
 	}
+	SaveCurrent(r, c)
 	err := Safe(func() error { return check(c) })
 	if err == nil {
 		return ""
@@ -391,4 +392,20 @@ func Try[C any](r *Recorder, c C, check func(C) error) string {
 		msg = msg[:4000] + "…"
 	}
 	return fmt.Sprintf("VERIF-FAIL property=%s test=%s replay=%s\n%s", r.Property, r.Test, path, msg)
+}
+
+// SaveCurrent writes the case about to run (only when the driver asks for it: VERIF_SAVE_CURRENT) to $VERIF_CURRENT_CASE_DIR: when the process is ended by something no wrapper can
+// catch (the runtime running out of memory or stack, a hang), the driver re-runs exactly this case alone to decide whether the
+// case did it.
+func SaveCurrent[C any](r *Recorder, c C) {
+	dir := os.Getenv("VERIF_CURRENT_CASE_DIR")
+	if dir == "" || os.Getenv("VERIF_SAVE_CURRENT") == "" {
+		return
+	}
+	raw, err := json.Marshal(c)
+	if err != nil {
+		return
+	}
+	b, _ := json.Marshal(Envelope{Property: r.Property, Test: r.Test, Error: "the process ended while this case was running", Case: raw})
+	os.WriteFile(filepath.Join(dir, r.Property+"-current-"+os.Getenv("VERIF_RUN_TEST")+"-"+os.Getenv("VERIF_RUN_TAG")+".json"), b, 0o644)
 }
